@@ -412,4 +412,31 @@ theorem node_dropRow (w : World) (t r : Nat) (ht : t < w.tables.size) (hr : r < 
 theorem tables_size_pushRow (w : World) (t : Nat) (row : Row) (cap : Nat) : (pushRow w t row cap).tables.size = w.tables.size := by
   unfold pushRow; simp [setIndex]
 
+
+/-- node, slot, target and activity of every table are untouched by row movements -/
+theorem fields_pushRow (w : World) (t : Nat) (row : Row) (cap : Nat) (ht : t < w.tables.size) (t' : Nat) :
+    ((pushRow w t row cap).tableOf t').target = (w.tableOf t').target ∧ ((pushRow w t row cap).tableOf t').active = (w.tableOf t').active ∧
+    ((pushRow w t row cap).tableOf t').k = (w.tableOf t').k := by
+  unfold pushRow
+  simp only [tableOf_setIndex]
+  by_cases e : t = t'
+  · subst e; rw [tableOf_setTable_eq _ _ _ ht]; exact ⟨rfl, rfl, rfl⟩
+  · rw [tableOf_setTable_ne _ _ _ _ e]; exact ⟨rfl, rfl, rfl⟩
+
+theorem fields_dropRow (w : World) (t r : Nat) (ht : t < w.tables.size) (hr : r < (w.tableOf t).rows.size) (t' : Nat) :
+    ((dropRow w t r).tableOf t').target = (w.tableOf t').target ∧ ((dropRow w t r).tableOf t').active = (w.tableOf t').active ∧
+    ((dropRow w t r).tableOf t').k = (w.tableOf t').k := by
+  unfold dropRow
+  simp only []
+  rw [removeRowFix_eq _ _ _ ht hr]
+  split
+  · simp only [tableOf_setIndex]
+    by_cases e : t = t'
+    · subst e; rw [tableOf_setTable_eq _ _ _ ht]; exact ⟨rfl, rfl, rfl⟩
+    · rw [tableOf_setTable_ne _ _ _ _ e]; exact ⟨rfl, rfl, rfl⟩
+  · simp only [tableOf_setIndex]
+    by_cases e : t = t'
+    · subst e; rw [tableOf_setTable_eq _ _ _ ht]; exact ⟨rfl, rfl, rfl⟩
+    · rw [tableOf_setTable_ne _ _ _ _ e]; exact ⟨rfl, rfl, rfl⟩
+
 end Arche.IndexInv
